@@ -19,7 +19,8 @@
 (* code, which wrote in message order.                                        *)
 EXTENDS KeyspaceOps, TLC, Json
 
-CONSTANTS Times, MaxReqs, SortBulk, WithCrash, WithBulk, WithUniform, EmitEdges
+CONSTANTS Times, MaxReqs, SortBulk, WithCrash, WithBulk, WithUniform, EmitEdges,
+          InitTombs   \* keys the storage already holds a tombstone for (stamp <<0, 0, first node>>) when the node starts
 
 VARIABLES st, store,
           reg,     \* stamp -> "none" | "ins" | "del": what operation a stamp belongs to (stamps identify operations)
@@ -32,14 +33,6 @@ MCView == [st |-> st, store |-> store, reg |-> reg, reqs |-> reqs, acked |-> ack
 Stamps == { <<t, 0, n>> : t \in Times, n \in Nodes }
 NoneE == [absent |-> TRUE]
 Entry(ts, tomb) == [ts |-> ts, tomb |-> tomb]
-
-Init ==
-  /\ st = EmptySet
-  /\ store = [k \in Keys |-> NoneE]
-  /\ reg = [s \in Stamps |-> "none"]
-  /\ reqs = 0
-  /\ acked = {}
-  /\ op = [kind |-> "init"]
 
 CanUse(ts, kind) == reg[ts] = "none" \/ reg[ts] = kind
 Register(r, tss, kind) == [s \in Stamps |-> IF s \in tss THEN kind ELSE r[s]]
@@ -108,6 +101,16 @@ Rebuild(s) ==
                  r == IF e[3] THEN DeleteWS(acc, 0, e[1], e[2]) ELSE InsertWS(acc, 0, e[1], e[2])
              IN Go(r[2], rest \ {e})
   IN Go(EmptySet, all)
+
+InitStamp == <<0, 0, CHOOSE n \in Nodes : \A m \in Nodes : n <= m>>
+InitStore == [k \in Keys |-> IF k \in InitTombs THEN Entry(InitStamp, TRUE) ELSE NoneE]
+Init ==
+  /\ store = InitStore
+  /\ st = IF InitTombs = {} THEN EmptySet ELSE Rebuild(InitStore)
+  /\ reg = [s \in Stamps |-> IF InitTombs # {} /\ s = InitStamp THEN "del" ELSE "none"]
+  /\ reqs = 0
+  /\ acked = {}
+  /\ op = [kind |-> "init"]
 
 \* the node stops between requests and restarts on the same storage
 CrashRestart ==
